@@ -17,7 +17,7 @@ import (
 type selftestEntry struct {
 	File     string `json:"file"`
 	Property string `json:"property"`
-	Expect   string `json:"expect"` // "fire" or "silent"
+	Expect   string `json:"expect"` // "fire", "silent" or "unrecognised"
 	Rule     string `json:"rule"`
 	What     string `json:"what"`
 }
@@ -161,10 +161,14 @@ func thoroughExtra(c *core.Ctx, p *Property) {
 		for _, k := range c.KnownKeys() {
 			known[k] = true
 		}
+		unrec := map[string]bool{}
 		for _, ob := range obs {
 			if ob.Status != core.Discharged && !known[ob.Rule+"|"+ob.Key] {
 				anyFired = true
 				fired[ob.Rule] = true
+			}
+			if len(ob.Unrecognised) > 0 {
+				unrec[ob.Rule] = true
 			}
 		}
 		for _, e := range byFile[f] {
@@ -174,6 +178,9 @@ func thoroughExtra(c *core.Ctx, p *Property) {
 				ok = fired[e.Rule]
 			case "silent":
 				ok = !anyFired
+			case "unrecognised":
+				// a change the rule cannot judge: it must say so, and must not alarm
+				ok = unrec[e.Rule] && !fired[e.Rule]
 			}
 			if ok {
 				agree++
